@@ -811,7 +811,10 @@ def run(ctx: core.Check, cases=None):
                 "empty list, variable index out of range), routing (EpistemicPropagation / Propagation method names), negative "
                 "powers (oracle only), thin (sides of relative width 1e-9..1e-5 at offsets up to 1e6), tiny (sides of magnitude 1e-12..1e-8), "
                 "extreme-const (number operands 1e-20 .. 1e18), sequence (different functions with one __qualname__ on one box), negstride "
-                "(bounds that are negative-stride views; oracle only). d = 1..4 in list, tuple, vector-Interval (float, int64, Fortran-order) "
+                "(bounds that are negative-stride views), chained (the Interval returned by one propagation is an operand of the next), "
+                "edge-valid (exp below overflow, sqrt from 0, divisor just off zero, uint64 bounds), routing through EpistemicPropagation "
+                "/ Propagation on integer, dyadic and thin boxes with n_sub 1..4; half of the cases reuse the SAME operand objects for all "
+                "their configurations. d = 1..4 in list, tuple, vector-Interval (float, int64, Fortran-order) "
                 "and scalar-Interval form; response functions passed as callable object, closure of one factory, or lambda. Every result "
                 "object and operand is re-read after all calls; a sample of runs is repeated at the end.  One evaluation = one "
                 "(expression, box, strategy, style, n_sub) run of b2b; non-trivial unless the expression is a single variable; "
